@@ -431,6 +431,7 @@ variable (s : Sh) (loc child : Nat) (plt : Bool)
 @[simp] theorem pushHook_dead : (pushHook s loc child plt).dead = s.dead := by simp [pushHook]
 @[simp] theorem pushHook_out : (pushHook s loc child plt).out = s.out := by simp [pushHook]
 @[simp] theorem pushHook_pid : (pushHook s loc child plt).pid = s.pid := by simp [pushHook]
+@[simp] theorem pushHook_child : (pushHook s loc child plt).child = s.child := by simp [pushHook]
 end pushHook
 
 /-- the memory after an entry hook: the new slot is hooked and, unless this is a tail call on the
@@ -1391,6 +1392,8 @@ variable (s : Sh) (slot orig : Nat)
 @[simp] theorem progStore_vf : (progStore s slot orig).vf = s.vf := rfl
 @[simp] theorem progStore_dead : (progStore s slot orig).dead = s.dead := rfl
 @[simp] theorem progStore_pid : (progStore s slot orig).pid = s.pid := rfl
+@[simp] theorem progStore_child : (progStore s slot orig).child = s.child := rfl
+@[simp] theorem progStore_out : (progStore s slot orig).out = s.out := rfl
 theorem progStore_slot : (progStore s slot orig).mem slot = orig := upd_same _ _ _
 theorem progStore_above {a : Nat} (h : slot < a) : (progStore s slot orig).mem a = s.mem a :=
   upd_other _ _ (by omega)
@@ -2585,5 +2588,1361 @@ theorem inv_vforkExec {m : M} (hi : Inv m) {child slot orig echild eorig : Nat}
     rw [c6]
     show (s1.record false).jbs = m.sh.jbs
     simp [s1]
+
+end Uft.NonLocal
+
+namespace Uft.NonLocal
+
+/-! ### the record side writes a coherent stream -/
+
+/-- the coherence checker as a fold -/
+def crun : CSt → List RRec → Option CSt
+  | c, [] => some c
+  | c, r :: rs => match cstep c r with
+    | none => none
+    | some c' => crun c' rs
+
+theorem coherent_iff_crun (c : CSt) (l : List RRec) : coherent c l = (crun c l).isSome := by
+  induction l generalizing c with
+  | nil => rfl
+  | cons r rs ih =>
+    simp only [coherent, crun]
+    cases cstep c r with
+    | none => rfl
+    | some c' => exact ih c'
+
+theorem crun_append (c : CSt) (a b : List RRec) : crun c (a ++ b) = (crun c a).bind (fun c' => crun c' b) := by
+  induction a generalizing c with
+  | nil => rfl
+  | cons r rs ih =>
+    simp only [List.cons_append, crun]
+    cases cstep c r with
+    | none => rfl
+    | some c' => exact ih c'
+
+theorem crun_snoc {c c1 : CSt} {a : List RRec} {r : RRec} (h : crun c a = some c1) (hk : cok c1 r = true) :
+    crun c (a ++ [r]) = some (cnext c1 r) := by
+  rw [crun_append, h]
+  simp [crun, cstep, hk]
+
+def toRRecs (l : List Rec) : List RRec := l.map toRRec
+
+theorem taskStream_append_tid0 (out new : List Rec) (h : ∀ r ∈ new, r.tid = 0) :
+    taskStream (out ++ new) = taskStream out ++ toRRecs new := by
+  simp only [taskStream, List.filter_append, List.map_append, toRRecs]
+  congr 2
+  apply List.filter_eq_self.mpr
+  intro r hr
+  simp [h r hr]
+
+/-- number of entries whose ENTRY record is out -/
+def wc : List Ent → Nat
+  | [] => 0
+  | e :: r => (if e.written then 1 else 0) + wc r
+
+def AllW (l : List Ent) : Prop := ∀ e ∈ l, e.written = true
+
+/-- WRITTEN is downward closed -/
+def WOk : List Ent → Prop
+  | [] => True
+  | e :: r => (e.written = true → AllW r) ∧ WOk r
+
+/-- no entry on the stack is a longjmp or an exec: those never stay on the stack between two steps -/
+def NoJump (l : List Ent) : Prop := ∀ e ∈ l, symKind e.c.child ≠ .longjmp ∧ symKind e.c.child ≠ .exec
+
+theorem wc_allW {l : List Ent} (h : AllW l) : wc l = l.length := by
+  induction l with
+  | nil => rfl
+  | cons e r ih =>
+    simp only [wc, h e (by simp), ↓reduceIte, List.length_cons]
+    rw [ih (fun x hx => h x (by simp [hx]))]; omega
+
+theorem WOk_allW {l : List Ent} (h : AllW l) : WOk l := by
+  induction l with
+  | nil => trivial
+  | cons e r ih =>
+    exact ⟨fun _ x hx => h x (by simp [hx]), ih (fun x hx => h x (by simp [hx]))⟩
+
+def SeenLe (c c' : CSt) : Prop := ∀ d, c.seen d = true → c'.seen d = true
+
+theorem SeenLe.refl (c : CSt) : SeenLe c c := fun _ h => h
+theorem SeenLe.trans {a b c : CSt} (h1 : SeenLe a b) (h2 : SeenLe b c) : SeenLe a c := fun d h => h2 d (h1 d h)
+
+/-- the checker state `c` after the records so far fits the stack `l` -/
+structure Sync (c : CSt) (l : List Ent) : Prop where
+  af : c.afterLj = false
+  cur : c.cur = wc l
+  st : c.started = false → wc l = 0
+  wok : WOk l
+  dep : l.map Ent.depth = descFrom l.length
+
+theorem Sync.tail {c : CSt} {e : Ent} {r : List Ent} (h : Sync c (e :: r)) (he : e.written = false) : Sync c r := by
+  refine ⟨h.af, ?_, ?_, h.wok.2, ?_⟩
+  · rw [h.cur]; simp [wc, he]
+  · intro hs; have := h.st hs; simpa [wc, he] using this
+  · have := h.dep
+    simp only [List.map_cons, List.length_cons, descFrom, List.cons.injEq] at this
+    exact this.2
+
+theorem Sync.head_depth {c : CSt} {e : Ent} {r : List Ent} (h : Sync c (e :: r)) : e.depth = r.length := by
+  have := h.dep
+  simp only [List.map_cons, List.length_cons, descFrom, List.cons.injEq] at this
+  exact this.1
+
+theorem cnext_entry_props (c : CSt) (e : Ent) :
+    (cnext c (toRRec (entryRec 0 e))).started = true ∧
+    (cnext c (toRRec (entryRec 0 e))).afterLj = decide (symKind e.c.child = .longjmp) ∧
+    (cnext c (toRRec (entryRec 0 e))).cur = (if symKind e.c.child = .exec then 0 else e.depth + 1) ∧
+    SeenLe c (cnext c (toRRec (entryRec 0 e))) ∧
+    (symKind e.c.child = .setjmp → (cnext c (toRRec (entryRec 0 e))).seen e.depth = true) := by
+  refine ⟨by simp [cnext, toRRec, entryRec], rfl, rfl, ?_, ?_⟩
+  · intro d hd
+    simp only [cnext, toRRec, entryRec, ↓reduceIte]
+    by_cases hk : symKind e.c.child = .setjmp
+    · simp only [hk, ↓reduceIte]; by_cases hde : d = e.depth <;> simp [hde, hd]
+    · simp only [hk, ↓reduceIte]; exact hd
+  · intro hk
+    simp [cnext, toRRec, entryRec, hk]
+
+/-- record_trace_data's ENTRY part on a stack that fits the stream: afterwards everything is written and
+    the checker has accepted every new record -/
+theorem writeEntries_stream : ∀ (l : List Ent) (c : CSt), Sync c l → NoJump l →
+    ∃ c', crun c (toRRecs (writeEntries 0 l).2) = some c' ∧ c'.afterLj = false ∧ c'.cur = l.length ∧
+      SeenLe c c' ∧ (c.started = true → c'.started = true) ∧ AllW (writeEntries 0 l).1 ∧
+      (∀ e r, l = e :: r → e.written = false → c'.started = true ∧
+        (symKind e.c.child = .setjmp → c'.seen e.depth = true)) := by
+  intro l
+  induction l with
+  | nil =>
+    intro c h _
+    exact ⟨c, rfl, h.af, by rw [h.cur]; rfl, SeenLe.refl c, id, (fun _ h => by cases h), (fun _ _ h => by cases h)⟩
+  | cons e r ih =>
+    intro c h hn
+    by_cases hw : e.written = true
+    · have hall : AllW (e :: r) := by
+        intro x hx
+        rcases List.mem_cons.mp hx with rfl | hx'
+        · exact hw
+        · exact h.wok.1 hw x hx'
+      refine ⟨c, by simp [writeEntries, hw, toRRecs, crun], h.af, by rw [h.cur, wc_allW hall], SeenLe.refl c, id, ?_, ?_⟩
+      · simpa [writeEntries, hw] using hall
+      · intro e' r' he hf
+        cases he; rw [hw] at hf; cases hf
+    · have hw' : e.written = false := by simpa using hw
+      obtain ⟨c1, h1, haf1, hcur1, hs1, hst1, hall1, _⟩ := ih c (h.tail hw') (fun x hx => hn x (by simp [hx]))
+      have hd := h.head_depth
+      have hk : cok c1 (toRRec (entryRec 0 e)) = true := by
+        simp only [cok, toRRec, entryRec, ↓reduceIte, haf1, Bool.not_false, Bool.true_and, beq_iff_eq]
+        split
+        · rw [hcur1, hd]
+        · rfl
+      obtain ⟨p1, p2, p3, p4, p5⟩ := cnext_entry_props c1 e
+      have hne := hn e (by simp)
+      refine ⟨cnext c1 (toRRec (entryRec 0 e)), ?_, ?_, ?_, hs1.trans p4, fun _ => p1, ?_, ?_⟩
+      · simp only [writeEntries, hw', Bool.false_eq_true, ↓reduceIte, toRRecs, List.map_append, List.map_cons,
+          List.map_nil]
+        exact crun_snoc h1 hk
+      · rw [p2]; simp [hne.1]
+      · rw [p3]; simp [hne.2, hd]
+      · simp only [writeEntries, hw', Bool.false_eq_true, ↓reduceIte]
+        intro x hx
+        rcases List.mem_cons.mp hx with rfl | hx'
+        · rfl
+        · exact hall1 x hx'
+      · intro e' r' he _
+        cases he
+        exact ⟨p1, p5⟩
+
+end Uft.NonLocal
+
+namespace Uft.NonLocal
+
+theorem wc_congr : ∀ {l l' : List Ent}, l.map Ent.written = l'.map Ent.written → wc l = wc l' := by
+  intro l
+  induction l with
+  | nil => intro l' h; cases l' with
+    | nil => rfl
+    | cons a b => simp at h
+  | cons e r ih =>
+    intro l' h
+    cases l' with
+    | nil => simp at h
+    | cons a b =>
+      simp only [List.map_cons, List.cons.injEq] at h
+      simp only [wc, h.1, ih h.2]
+
+theorem AllW_congr {l l' : List Ent} (h : l.map Ent.written = l'.map Ent.written) (ha : AllW l) : AllW l' := by
+  intro e he
+  have : e.written ∈ l'.map Ent.written := List.mem_map_of_mem he
+  rw [← h] at this
+  obtain ⟨x, hx, e1⟩ := List.mem_map.mp this
+  rw [← e1]; exact ha x hx
+
+theorem WOk_congr : ∀ {l l' : List Ent}, l.map Ent.written = l'.map Ent.written → WOk l → WOk l' := by
+  intro l
+  induction l with
+  | nil => intro l' h _; cases l' with
+    | nil => trivial
+    | cons a b => simp at h
+  | cons e r ih =>
+    intro l' h hw
+    cases l' with
+    | nil => simp at h
+    | cons a b =>
+      simp only [List.map_cons, List.cons.injEq] at h
+      exact ⟨fun ha => AllW_congr h.2 (hw.1 (by rw [h.1]; exact ha)), ih h.2 hw.2⟩
+
+theorem Sync.congr {c : CSt} {l l' : List Ent} (h : Sync c l) (hw : l.map Ent.written = l'.map Ent.written)
+    (hd : l.map Ent.depth = l'.map Ent.depth) : Sync c l' := by
+  have hl : l'.length = l.length := by
+    have := congrArg List.length hd; simp at this; exact this.symm
+  exact ⟨h.af, by rw [h.cur, wc_congr hw], fun hs => by rw [← wc_congr hw]; exact h.st hs, WOk_congr hw h.wok,
+    by rw [← hd, hl]; exact h.dep⟩
+
+theorem NoJump.congr {l l' : List Ent} (h : NoJump l) (hc : l.map Ent.c = l'.map Ent.c) : NoJump l' := by
+  intro e he
+  have : e.c ∈ l'.map Ent.c := List.mem_map_of_mem he
+  rw [← hc] at this
+  obtain ⟨x, hx, e1⟩ := List.mem_map.mp this
+  rw [← e1]; exact h x hx
+
+theorem Sync_allW {c : CSt} {l : List Ent} (haf : c.afterLj = false) (hall : AllW l) (hcur : c.cur = l.length)
+    (hst : c.started = true) (hd : l.map Ent.depth = descFrom l.length) : Sync c l :=
+  ⟨haf, by rw [hcur, wc_allW hall], (fun h => by rw [hst] at h; cases h), WOk_allW hall, hd⟩
+
+theorem entryRec_tid (t : Nat) (e : Ent) : (entryRec t e).tid = t := rfl
+theorem exitRec_tid (t : Nat) (e : Ent) : (exitRec t e).tid = t := rfl
+
+theorem writeEntries_tid (t : Nat) : ∀ l : List Ent, ∀ r ∈ (writeEntries t l).2, r.tid = t := by
+  intro l
+  induction l with
+  | nil => intro r hr; simp [writeEntries] at hr
+  | cons e rs ih =>
+    intro r hr
+    simp only [writeEntries] at hr
+    split at hr
+    · simp at hr
+    · simp only [List.mem_append, List.mem_cons, List.not_mem_nil, or_false] at hr
+      rcases hr with hr | hr
+      · exact ih r hr
+      · rw [hr]; rfl
+
+/-- the records written so far are accepted by the checker, whose state fits the shadow stack -/
+structure SOk (s : Sh) (c : CSt) : Prop where
+  child : s.child = false
+  run : crun CSt.init (taskStream s.out) = some c
+  sync : Sync c s.rs
+  idx : s.recIdx = s.rs.length
+
+theorem cok_exit {c : CSt} {e : Ent} {n : Nat} (haf : c.afterLj = false) (hcur : c.cur = n + 1) (hd : e.depth = n)
+    (hst : c.started = true) : cok c (toRRec (exitRec 0 e)) = true := by
+  simp [cok, toRRec, exitRec, haf, hst, hcur, hd]
+
+theorem cnext_exit_props (c : CSt) (e : Ent) :
+    (cnext c (toRRec (exitRec 0 e))).started = true ∧ (cnext c (toRRec (exitRec 0 e))).afterLj = false ∧
+    (cnext c (toRRec (exitRec 0 e))).cur = e.depth ∧ (cnext c (toRRec (exitRec 0 e))).seen = c.seen := by
+  simp [cnext, toRRec, exitRec]
+
+theorem autoRehook_child (t : Sh) : (autoRehook t).child = t.child := by
+  unfold autoRehook; split <;> (try split) <;> (try split) <;> rfl
+theorem autoRehook_out (t : Sh) : (autoRehook t).out = t.out := by
+  unfold autoRehook; split <;> (try split) <;> (try split) <;> rfl
+
+/-- the exit of the top entry (mcount_exit / plthook_exit after `again:`) -/
+theorem stream_exitTop {s : Sh} {c : CSt} (h : SOk s c) (hn : NoJump s.rs) {e : Ent} {r : List Ent}
+    (hr : s.rs = e :: r) :
+    ∃ c', SOk (exitTop s).1 c' ∧ SeenLe c c' ∧ c'.started = true ∧ NoJump (exitTop s).1.rs ∧
+      (symKind e.c.child = .setjmp → c'.seen e.depth = true ∨ e.written = true) := by
+  have htid : s.tid = 0 := by simp [Sh.tid, h.child]
+  have hsync : Sync c (e :: r) := hr ▸ h.sync
+  have hn' : NoJump (e :: r) := hr ▸ hn
+  obtain ⟨c1, h1, haf1, hcur1, hs1, hst1, hall1, hhead⟩ := writeEntries_stream (e :: r) c hsync hn'
+  have hwc := writeEntries_c 0 (e :: r)
+  have hwd := writeEntries_depth 0 (e :: r)
+  obtain ⟨e', r', hr', he', hrc'⟩ := List.map_eq_cons_iff.mp hwc
+  have hd : e.depth = r.length := hsync.head_depth
+  have hrl : r'.length = r.length := by
+    have := congrArg List.length hrc'; simpa using this
+  have hst : c1.started = true := by
+    by_cases hw : e.written = true
+    · apply hst1
+      rcases Bool.eq_false_or_eq_true c.started with hs | hs
+      · exact hs
+      · have := hsync.st hs
+        simp [wc, hw] at this
+    · exact (hhead e r rfl (by simpa using hw)).1
+  have hk : cok c1 (toRRec (exitRec 0 e)) = true := cok_exit haf1 (by rw [hcur1]; rfl) hd hst
+  obtain ⟨q1, q2, q3, q4⟩ := cnext_exit_props c1 e
+  have hefr : (exitFilterRecord s true).rs = e' :: r' := by
+    simp only [exitFilterRecord, Sh.record, hr, htid]; exact hr'
+  have hout : (exitTop s).1.out = s.out ++ ((writeEntries 0 (e :: r)).2 ++ [exitRec 0 e]) := by
+    simp only [exitTop, hr, autoRehook_out]
+    simp [exitFilterRecord, Sh.record, hr, htid]
+  have hrs : (exitTop s).1.rs = r' := by
+    simp only [exitTop, hr, autoRehook_rs, hefr, List.tail_cons]
+  have hallr : AllW r' := fun x hx => hall1 x (by rw [hr']; simp [hx])
+  have hdr : r'.map Ent.depth = descFrom r'.length := by
+    have h2 : (e' :: r').map Ent.depth = (e :: r).map Ent.depth := by rw [← hr', hwd]
+    have h3 := hsync.dep
+    simp only [List.map_cons, List.length_cons, descFrom, List.cons.injEq] at h2 h3
+    rw [h2.2, h3.2, hrl]
+  have hnr : NoJump r := fun x hx => hn' x (by simp [hx])
+  refine ⟨cnext c1 (toRRec (exitRec 0 e)), ⟨?_, ?_, ?_, ?_⟩, ?_, q1, ?_, ?_⟩
+  · have : (exitTop s).1.child = s.child := by
+      simp only [exitTop, hr, autoRehook_child]
+      simp [exitFilterRecord]
+    rw [this]; exact h.child
+  · rw [hout, taskStream_append_tid0 _ _ (by
+      intro x hx
+      rcases List.mem_append.mp hx with hx | hx
+      · exact writeEntries_tid 0 _ x hx
+      · simp at hx; rw [hx]; rfl)]
+    rw [crun_append, h.run]
+    simp only [Option.bind_some, toRRecs, List.map_append, List.map_cons, List.map_nil]
+    exact crun_snoc h1 hk
+  · rw [hrs]; exact Sync_allW q2 hallr (by rw [q3, hd, hrl]) q1 hdr
+  · have : (exitTop s).1.recIdx = s.recIdx - 1 := by
+      simp [exitTop, hr, exitFilterRecord]
+    rw [this, hrs, h.idx, hr, hrl]; simp
+  · intro d hd'; rw [q4]; exact hs1 d hd'
+  · rw [hrs]; exact NoJump.congr hnr hrc'.symm
+  · intro hk'
+    by_cases hw : e.written = true
+    · right; exact hw
+    · left; rw [q4]; exact (hhead e r rfl (by simpa using hw)).2 hk'
+
+end Uft.NonLocal
+
+namespace Uft.NonLocal
+
+theorem SOk.of_eq {s t : Sh} {c : CSt} (h : SOk s c) (h1 : t.child = s.child) (h2 : t.out = s.out) (h3 : t.rs = s.rs)
+    (h4 : t.recIdx = s.recIdx) : SOk t c :=
+  ⟨by rw [h1]; exact h.child, by rw [h2]; exact h.run, by rw [h3]; exact h.sync, by rw [h4, h3]; exact h.idx⟩
+
+theorem NoJump.cons {e : Ent} {l : List Ent} (he : symKind e.c.child ≠ .longjmp ∧ symKind e.c.child ≠ .exec)
+    (h : NoJump l) : NoJump (e :: l) := by
+  intro x hx
+  rcases List.mem_cons.mp hx with rfl | hx'
+  · exact he
+  · exact h x hx'
+
+theorem NoJump.tail {e : Ent} {l : List Ent} (h : NoJump (e :: l)) : NoJump l := fun x hx => h x (by simp [hx])
+
+theorem Sync.push {c : CSt} {l : List Ent} (h : Sync c l) {e : Ent} (hw : e.written = false) (hd : e.depth = l.length) :
+    Sync c (e :: l) := by
+  refine ⟨h.af, by rw [h.cur]; simp [wc, hw], (fun hs => by simpa [wc, hw] using h.st hs),
+    ⟨(fun hh => by rw [hw] at hh; cases hh), h.wok⟩, ?_⟩
+  simp [descFrom, hd, h.dep]
+
+theorem stream_pushHook {s : Sh} {c : CSt} (h : SOk s c) (loc child : Nat) (plt : Bool) :
+    SOk (pushHook s loc child plt) c := by
+  refine ⟨by simp [pushHook, h.child], by simp [h.run], ?_, by simp [h.idx]⟩
+  rw [pushHook_rs]
+  exact h.sync.push rfl (by simp [mkEnt, h.idx])
+
+/-- a forced flush (record_trace_data without an EXIT) when the top entry is still unwritten -/
+theorem stream_flush {s : Sh} {c : CSt} (h : SOk s c) {e : Ent} {r : List Ent} (hr : s.rs = e :: r)
+    (hw : e.written = false) (hn : NoJump r) :
+    ∃ c1, crun CSt.init (taskStream (s.record false).out) = some (cnext c1 (toRRec (entryRec 0 e))) ∧
+      c1.afterLj = false ∧ c1.cur = r.length ∧ SeenLe c c1 ∧ AllW (s.record false).rs := by
+  have htid : s.tid = 0 := by simp [Sh.tid, h.child]
+  have hsync : Sync c (e :: r) := hr ▸ h.sync
+  obtain ⟨c1, h1, haf1, hcur1, hs1, _, hall1, _⟩ := writeEntries_stream r c (hsync.tail hw) hn
+  have hk : cok c1 (toRRec (entryRec 0 e)) = true := by
+    simp only [cok, toRRec, entryRec, ↓reduceIte, haf1, Bool.not_false, Bool.true_and, beq_iff_eq]
+    split
+    · rw [hcur1, hsync.head_depth]
+    · rfl
+  refine ⟨c1, ?_, haf1, hcur1, hs1, ?_⟩
+  · have hout : (s.record false).out = s.out ++ ((writeEntries 0 r).2 ++ [entryRec 0 e]) := by
+      simp [Sh.record, hr, htid, writeEntries, hw]
+    rw [hout, taskStream_append_tid0 _ _ (by
+      intro x hx
+      rcases List.mem_append.mp hx with hx | hx
+      · exact writeEntries_tid 0 _ x hx
+      · simp at hx; rw [hx]; rfl)]
+    rw [crun_append, h.run]
+    simp only [Option.bind_some, toRRecs, List.map_append, List.map_cons, List.map_nil]
+    exact crun_snoc h1 hk
+  · have hrs : (s.record false).rs = { e with written := true } :: (writeEntries 0 r).1 := by
+      simp [Sh.record, hr, htid, writeEntries, hw]
+    rw [hrs]
+    intro x hx
+    rcases List.mem_cons.mp hx with rfl | hx'
+    · rfl
+    · exact hall1 x hx'
+
+/-- the loop of mcount_rstack_rehook_exception, on the stream -/
+theorem stream_popDead (fa : Nat) : ∀ (n : Nat) (l : List Ent) (ri : Nat) (out : List Rec) (c : CSt),
+    crun CSt.init (taskStream out) = some c → Sync c l → NoJump l → ri = l.length →
+    ∃ c', crun CSt.init (taskStream (popDead 0 fa n l ri out).2.2) = some c' ∧
+      Sync c' (popDead 0 fa n l ri out).1 ∧ NoJump (popDead 0 fa n l ri out).1 ∧
+      (popDead 0 fa n l ri out).2.1 = (popDead 0 fa n l ri out).1.length ∧ SeenLe c c' := by
+  intro n
+  induction n with
+  | zero => intro l ri out c hrun hs hn hri; exact ⟨c, hrun, hs, hn, hri, SeenLe.refl c⟩
+  | succ n ih =>
+    intro l ri out c hrun hs hn hri
+    cases l with
+    | nil => exact ⟨c, hrun, hs, hn, hri, SeenLe.refl c⟩
+    | cons e r =>
+      simp only [popDead]
+      split
+      · exact ⟨c, hrun, hs, hn, hri, SeenLe.refl c⟩
+      · -- one dead entry: its ENTRY (and those below) if still owed, then its EXIT
+        obtain ⟨c1, h1, haf1, hcur1, hs1, hst1, hall1, hhead⟩ := writeEntries_stream (e :: r) c hs hn
+        have hwc := writeEntries_c 0 (e :: r)
+        have hwd := writeEntries_depth 0 (e :: r)
+        obtain ⟨e', r', hr', he', hrc'⟩ := List.map_eq_cons_iff.mp hwc
+        have hd : e.depth = r.length := hs.head_depth
+        have hrl : r'.length = r.length := by
+          have := congrArg List.length hrc'; simpa using this
+        have hst : c1.started = true := by
+          by_cases hw : e.written = true
+          · apply hst1
+            rcases Bool.eq_false_or_eq_true c.started with hs' | hs'
+            · exact hs'
+            · have := hs.st hs'
+              simp [wc, hw] at this
+          · exact (hhead e r rfl (by simpa using hw)).1
+        have hk : cok c1 (toRRec (exitRec 0 e)) = true := cok_exit haf1 (by rw [hcur1]; rfl) hd hst
+        obtain ⟨q1, q2, q3, q4⟩ := cnext_exit_props c1 e
+        have hallr : AllW r' := fun x hx => hall1 x (by rw [hr']; simp [hx])
+        have hdr : r'.map Ent.depth = descFrom r'.length := by
+          have h2 : (e' :: r').map Ent.depth = (e :: r).map Ent.depth := by rw [← hr', hwd]
+          have h3 := hs.dep
+          simp only [List.map_cons, List.length_cons, descFrom, List.cons.injEq] at h2 h3
+          rw [h2.2, h3.2, hrl]
+        rw [hr']
+        simp only [List.tail_cons]
+        have hrun' : crun CSt.init (taskStream (out ++ (writeEntries 0 (e :: r)).2 ++ [exitRec 0 e])) =
+            some (cnext c1 (toRRec (exitRec 0 e))) := by
+          rw [List.append_assoc, taskStream_append_tid0 _ _ (by
+            intro x hx
+            rcases List.mem_append.mp hx with hx | hx
+            · exact writeEntries_tid 0 _ x hx
+            · simp at hx; rw [hx]; rfl)]
+          rw [crun_append, hrun]
+          simp only [Option.bind_some, toRRecs, List.map_append, List.map_cons, List.map_nil]
+          exact crun_snoc h1 hk
+        obtain ⟨c', a1, a2, a3, a4, a5⟩ := ih r' (ri - 1) _ _ hrun'
+          (Sync_allW q2 hallr (by rw [q3, hd, hrl]) q1 hdr)
+          (NoJump.congr hn.tail hrc'.symm) (by rw [hri, hrl]; simp)
+        refine ⟨c', a1, a2, a3, a4, ?_⟩
+        intro d hd'
+        exact a5 d (by rw [q4]; exact hs1 d hd')
+
+end Uft.NonLocal
+
+namespace Uft.NonLocal
+
+def NoFlags (l : List Ent) : Prop := ∀ e ∈ l, e.c.ljmp = false ∧ e.c.vfork = false
+
+theorem NoFlags.congr {l l' : List Ent} (h : NoFlags l) (hc : l.map Ent.c = l'.map Ent.c) : NoFlags l' := by
+  intro e he
+  have : e.c ∈ l'.map Ent.c := List.mem_map_of_mem he
+  rw [← hc] at this
+  obtain ⟨x, hx, e1⟩ := List.mem_map.mp this
+  rw [← e1]; exact h x hx
+
+theorem NoFlags.tail {e : Ent} {l : List Ent} (h : NoFlags (e :: l)) : NoFlags l := fun x hx => h x (by simp [hx])
+
+theorem NoFlags_of_exp {l : List Ent} {fs : List Frame} (h : l.map Ent.c = expFrames fs) : NoFlags l := by
+  intro e he
+  have : e.c ∈ l.map Ent.c := List.mem_map_of_mem he
+  rw [h] at this
+  clear he h
+  induction fs with
+  | nil => simp [expFrames] at this
+  | cons f fs ih =>
+    simp only [expFrames, List.mem_append] at this
+    rcases this with h | h
+    · exact expChain_flags h
+    · exact ih h
+
+theorem plthookExit_plain {s : Sh} {e : Ent} {r : List Ent} (hr : s.rs = e :: r) (hl : e.c.ljmp = false)
+    (hv : e.c.vfork = false) (hvf : s.vf = none) :
+    plthookExit s = if e.c.plt then exitTop s else ({ s with dead := true }, 0) := by
+  by_cases hp : e.c.plt = true <;> simp [plthookExit, plthookExitCore, hr, hl, hv, hvf, restoreVfork, hp]
+
+theorem plthookExit_nil {s : Sh} (hr : s.rs = []) (hvf : s.vf = none) : plthookExit s = ({ s with dead := true }, 0) := by
+  simp [plthookExit, plthookExitCore, hr, hvf, restoreVfork]
+
+theorem exitTop_nil {s : Sh} (hr : s.rs = []) : exitTop s = ({ s with dead := true }, 0) := by
+  simp [exitTop, hr]
+
+/-- the return stubs, on the stream -/
+theorem stream_retLoop : ∀ (n : Nat) (s : Sh) (v : Nat) (c : CSt), SOk s c → NoJump s.rs → NoFlags s.rs → s.vf = none →
+    ∃ c', SOk (retLoop n s v).1 c' ∧ SeenLe c c' ∧ NoJump (retLoop n s v).1.rs ∧ NoFlags (retLoop n s v).1.rs ∧
+      (retLoop n s v).1.vf = none ∧ (retLoop n s v).1.jbs = s.jbs := by
+  intro n
+  induction n with
+  | zero => intro s v c h hn hf hvf; exact ⟨c, h, SeenLe.refl c, hn, hf, hvf, rfl⟩
+  | succ n ih =>
+    intro s v c h hn hf hvf
+    have dead_case : ∀ t : Sh, t = { s with dead := true } →
+        ∃ c', SOk (retLoop n t 0).1 c' ∧ SeenLe c c' ∧ NoJump (retLoop n t 0).1.rs ∧ NoFlags (retLoop n t 0).1.rs ∧
+          (retLoop n t 0).1.vf = none ∧ (retLoop n t 0).1.jbs = s.jbs := by
+      intro t ht
+      subst ht
+      have hz : isTramp 0 = false := by decide
+      rw [retLoop_stop hz]
+      exact ⟨c, h.of_eq rfl rfl rfl rfl, SeenLe.refl c, hn, hf, hvf, rfl⟩
+    have exit_case : ∀ (e : Ent) (r : List Ent), s.rs = e :: r →
+        ∃ c', SOk (retLoop n (exitTop s).1 (exitTop s).2).1 c' ∧ SeenLe c c' ∧
+          NoJump (retLoop n (exitTop s).1 (exitTop s).2).1.rs ∧ NoFlags (retLoop n (exitTop s).1 (exitTop s).2).1.rs ∧
+          (retLoop n (exitTop s).1 (exitTop s).2).1.vf = none ∧
+          (retLoop n (exitTop s).1 (exitTop s).2).1.jbs = s.jbs := by
+      intro e r hr
+      obtain ⟨c1, a1, a2, _, a4, _⟩ := stream_exitTop h hn hr
+      have hspec := exitTop_spec (s := s) (x := e.c) (xs := r.map Ent.c) (by rw [hr]; rfl)
+      have hf1 : NoFlags (exitTop s).1.rs := (hr ▸ hf : NoFlags (e :: r)).tail.congr hspec.2.1.symm
+      obtain ⟨c', b1, b2, b3, b4, b5, b6⟩ := ih _ _ c1 a1 a4 hf1 (by rw [exitTop_vf]; exact hvf)
+      exact ⟨c', b1, a2.trans b2, b3, b4, b5, by rw [b6, hspec.2.2.2.2.2.1]⟩
+    simp only [retLoop]
+    split
+    · -- mcount_return
+      simp only [mcountExit]
+      cases hr : s.rs with
+      | nil => rw [exitTop_nil hr]; exact dead_case _ rfl
+      | cons e r => exact exit_case e r hr
+    · split
+      · -- plthook_return
+        cases hr : s.rs with
+        | nil => rw [plthookExit_nil hr hvf]; exact dead_case _ rfl
+        | cons e r =>
+          have hfe := hf e (by rw [hr]; simp)
+          rw [plthookExit_plain hr hfe.1 hfe.2 hvf]
+          split
+          · exact exit_case e r hr
+          · exact dead_case _ rfl
+      · exact ⟨c, h, SeenLe.refl c, hn, hf, hvf, rfl⟩
+
+theorem fixChain_written (m : Mem) : ∀ l : List Ent, (fixChain m l).map Ent.written = l.map Ent.written := by
+  intro l
+  induction l with
+  | nil => rfl
+  | cons e r ih =>
+    cases r with
+    | nil => simp [fixChain]
+    | cons e2 r2 =>
+      simp only [fixChain]
+      split
+      · simp only [List.map_cons, List.cons.injEq, true_and]; exact ih
+      · rfl
+
+theorem fixChain_child (m : Mem) : ∀ l : List Ent, (fixChain m l).map (fun e => e.c.child) = l.map (fun e => e.c.child) := by
+  intro l
+  induction l with
+  | nil => rfl
+  | cons e r ih =>
+    cases r with
+    | nil => simp [fixChain]
+    | cons e2 r2 =>
+      simp only [fixChain]
+      split
+      · simp only [List.map_cons, List.cons.injEq, true_and]; exact ih
+      · rfl
+
+theorem NoJump.congr_child {l l' : List Ent} (h : NoJump l)
+    (hc : l.map (fun e => e.c.child) = l'.map (fun e => e.c.child)) : NoJump l' := by
+  intro e he
+  have : e.c.child ∈ l'.map (fun e => e.c.child) := List.mem_map_of_mem (f := fun e => e.c.child) he
+  rw [← hc] at this
+  obtain ⟨x, hx, e1⟩ := List.mem_map.mp this
+  rw [← e1]; exact h x hx
+
+/-- `if (in_exception) { mcount_rstack_rehook_exception(); in_exception = false; }` on the stream -/
+theorem stream_excPre (fx : Fix) {s : Sh} {c : CSt} (h : SOk s c) (hn : NoJump s.rs) (fa : Nat) :
+    ∃ c', SOk (excPre fx s fa) c' ∧ SeenLe c c' ∧ NoJump (excPre fx s fa).rs := by
+  have htid : s.tid = 0 := by simp [Sh.tid, h.child]
+  obtain ⟨c', a1, a2, a3, a4, a5⟩ := stream_popDead fa s.rs.length s.rs s.recIdx s.out c h.run h.sync hn h.idx
+  have hlen : (fixChain s.mem (popDead 0 fa s.rs.length s.rs s.recIdx s.out).1).length =
+      (popDead 0 fa s.rs.length s.rs s.recIdx s.out).1.length := by
+    have := congrArg List.length (fixChain_depth s.mem (popDead 0 fa s.rs.length s.rs s.recIdx s.out).1)
+    simpa using this
+  refine ⟨c', ⟨h.child, ?_, ?_, ?_⟩, a5, ?_⟩
+  · simp only [excPre, rehookException, htid]; exact a1
+  · simp only [excPre, rehookException, htid]
+    exact a2.congr (fixChain_written _ _).symm (fixChain_depth _ _).symm
+  · simp only [excPre, rehookException, htid]; rw [hlen]; exact a4
+  · simp only [excPre, rehookException, htid]
+    exact a3.congr_child (fixChain_child _ _).symm
+
+end Uft.NonLocal
+
+namespace Uft.NonLocal
+
+/-! ### the record stream along machine steps -/
+
+theorem exitTop_written_top {s : Sh} {e : Ent} {r : List Ent} (hr : s.rs = e :: r) (hw : e.written = true)
+    (htid : s.tid = 0) :
+    (exitTop s).1.out = s.out ++ [exitRec 0 e] ∧ (exitTop s).1.rs = r ∧ (exitTop s).1.recIdx = s.recIdx - 1 ∧
+    (exitTop s).1.child = s.child := by
+  refine ⟨?_, ?_, ?_, ?_⟩
+  · simp only [exitTop, hr, autoRehook_out]
+    simp [exitFilterRecord, Sh.record, hr, htid, writeEntries, hw]
+  · simp only [exitTop, hr, autoRehook_rs]
+    simp [exitFilterRecord, Sh.record, hr, htid, writeEntries, hw]
+  · simp [exitTop, hr, exitFilterRecord]
+  · simp only [exitTop, hr, autoRehook_child]
+    simp [exitFilterRecord]
+
+def okKind (child : Nat) : Prop := symKind child ≠ .longjmp ∧ symKind child ≠ .exec
+
+/-- the symbols of the program are what replay takes them for: setjmp/longjmp/exec* are called through
+    their own ops only; the ops without a depth claim are not part of such a history -/
+def SymOk : Op → Prop
+  | .call k child _ _ _ => k ≠ .none → okKind child
+  | .tailcall _ child => okKind child
+  | .setjmp _ child _ _ => symKind child = .setjmp
+  | .longjmp _ child _ _ => symKind child = .longjmp
+  | .fork inChild child _ _ => inChild = false ∧ okKind child
+  | .exec child _ _ => symKind child = .exec
+  | .pthreadExit .. => False
+  | .exit .. => False
+  | .vforkExec .. => False
+  | _ => True
+
+structure StreamInv (m : M) (c : CSt) : Prop where
+  ok : SOk m.sh c
+  nj : NoJump m.sh.rs
+  jb : ∀ j srs sidx, m.sh.jbs.lookup j = some (srs, sidx) →
+        ∃ e r, srs = e :: r ∧ c.seen r.length = true ∧ NoJump r
+
+theorem StreamInv.jb_mono {m : M} {c c' : CSt} (h : StreamInv m c) (hs : SeenLe c c') {jbs : List (Nat × (List Ent × Nat))}
+    (hj : jbs = m.sh.jbs) :
+    ∀ j srs sidx, jbs.lookup j = some (srs, sidx) → ∃ e r, srs = e :: r ∧ c'.seen r.length = true ∧ NoJump r := by
+  intro j srs sidx hl
+  rw [hj] at hl
+  obtain ⟨e, r, h1, h2, h3⟩ := h.jb j srs sidx hl
+  exact ⟨e, r, h1, hs _ h2, h3⟩
+
+theorem mkEnt_nojump {loc ip child : Nat} {plt : Bool} {d : Nat} (h : okKind child) :
+    symKind (mkEnt loc ip child plt d).c.child ≠ .longjmp ∧ symKind (mkEnt loc ip child plt d).c.child ≠ .exec := h
+
+theorem logicalDepth_suffix {a b : List Frame} (h : a <:+ b) : logicalDepth a ≤ logicalDepth b := by
+  obtain ⟨t, rfl⟩ := h
+  induction t with
+  | nil => exact Nat.le_refl _
+  | cons f t ih => simp only [List.cons_append, logicalDepth]; omega
+
+theorem stream_step {m : M} {c : CSt} (hi : Inv m) (ht : TraceInv m.sh) (hs : StreamInv m c) {op : Op}
+    (hw : WellFormedOp m op) (hk : SymOk op) :
+    ∃ c', StreamInv (step Fix.all m op) c' ∧ SeenLe c c' := by
+  cases op with
+  | call k child slot orig fpw =>
+    have hstep : (step Fix.all m (.call k child slot orig fpw)).sh =
+        hookEntry Fix.all (progWrite m.sh slot orig fpw) k slot child := by simp [step, hi.nh, progWrite]
+    have h0 : SOk (progWrite m.sh slot orig fpw) c := hs.ok.of_eq rfl rfl rfl rfl
+    cases k with
+    | none =>
+      exact ⟨c, ⟨by rw [hstep]; exact h0, by rw [hstep]; exact hs.nj, by rw [hstep]; exact hs.jb⟩, SeenLe.refl c⟩
+    | mcount =>
+      have hok : okKind child := hk (by simp)
+      rw [show hookEntry Fix.all (progWrite m.sh slot orig fpw) .mcount slot child =
+        mcountEntry Fix.all (progWrite m.sh slot orig fpw) slot child from rfl] at hstep
+      rcases Bool.eq_false_or_eq_true m.sh.inExc with hx | hx
+      · rw [mcountEntry_exc Fix.all (s := progWrite m.sh slot orig fpw) hx] at hstep
+        obtain ⟨c', a1, a2, a3⟩ := stream_excPre Fix.all h0 hs.nj (entryFrameAddr Fix.all (progWrite m.sh slot orig fpw) slot)
+        refine ⟨c', ⟨by rw [hstep]; exact stream_pushHook a1 _ _ _, ?_, ?_⟩, a2⟩
+        · rw [hstep, pushHook_rs]; exact NoJump.cons (mkEnt_nojump hok) a3
+        · rw [hstep]; exact hs.jb_mono a2 (by simp [excPre, rehookException])
+      · rw [mcountEntry_noexc Fix.all (s := progWrite m.sh slot orig fpw) hx] at hstep
+        refine ⟨c, ⟨by rw [hstep]; exact stream_pushHook h0 _ _ _, ?_, ?_⟩, SeenLe.refl c⟩
+        · rw [hstep, pushHook_rs]; exact NoJump.cons (mkEnt_nojump hok) hs.nj
+        · rw [hstep]; exact hs.jb_mono (SeenLe.refl c) (by simp)
+    | plt =>
+      have hok : okKind child := hk (by simp)
+      rw [show hookEntry Fix.all (progWrite m.sh slot orig fpw) .plt slot child =
+        plthookEntry Fix.all (progWrite m.sh slot orig fpw) slot child .plain 0 from rfl] at hstep
+      rcases Bool.eq_false_or_eq_true m.sh.inExc with hx | hx
+      · rw [plthookEntry_plain_exc (s := progWrite m.sh slot orig fpw) hx] at hstep
+        obtain ⟨c', a1, a2, a3⟩ := stream_excPre Fix.all h0 hs.nj slot
+        refine ⟨c', ⟨by rw [hstep]; exact stream_pushHook a1 _ _ _, ?_, ?_⟩, a2⟩
+        · rw [hstep, pushHook_rs]; exact NoJump.cons (mkEnt_nojump hok) a3
+        · rw [hstep]; exact hs.jb_mono a2 (by simp [excPre, rehookException])
+      · rw [plthookEntry_plain_noexc Fix.all (s := progWrite m.sh slot orig fpw) hx] at hstep
+        refine ⟨c, ⟨by rw [hstep]; exact stream_pushHook h0 _ _ _, ?_, ?_⟩, SeenLe.refl c⟩
+        · rw [hstep, pushHook_rs]; exact NoJump.cons (mkEnt_nojump hok) hs.nj
+        · rw [hstep]; exact hs.jb_mono (SeenLe.refl c) (by simp)
+  | ret =>
+    obtain ⟨f, fs, hf⟩ : ∃ f fs, m.fs = f :: fs := by
+      cases h : m.fs with
+      | nil => exact absurd h hw.1
+      | cons f fs => exact ⟨f, fs, rfl⟩
+    have hstep : (step Fix.all m .ret).sh = (retLoop (m.sh.rs.length + 1) m.sh (m.sh.mem f.slot)).1 := by
+      rw [step_ret_eq _ hi.nh hf]
+    rcases Bool.eq_false_or_eq_true m.sh.inExc with hx | hx
+    · -- only unhooked helpers return while the stack is being unwound: no hook runs
+      have hch : f.chain = [] := hw.2 hx f (by rw [hf]; simp)
+      have hm : m.sh.mem f.slot = f.orig := hi.exc hx f (by rw [hf]; simp)
+      rw [hm, retLoop_stop (hi.origs f (by rw [hf]; simp))] at hstep
+      exact ⟨c, ⟨by rw [hstep]; exact hs.ok, by rw [hstep]; exact hs.nj, by rw [hstep]; exact hs.jb⟩, SeenLe.refl c⟩
+    · obtain ⟨dead, hc, hd0⟩ := hi.ctl
+      have hd : dead = [] := hd0 hx
+      subst hd
+      simp only [List.nil_append] at hc
+      obtain ⟨c', a1, a2, a3, _, _, a6⟩ := stream_retLoop (m.sh.rs.length + 1) m.sh (m.sh.mem f.slot) c hs.ok hs.nj
+        (NoFlags_of_exp hc) hi.vf
+      exact ⟨c', ⟨by rw [hstep]; exact a1, by rw [hstep]; exact a3, by rw [hstep]; exact hs.jb_mono a2 a6⟩, a2⟩
+  | tailcall k child =>
+    obtain ⟨hne, hx, hkk⟩ := hw
+    obtain ⟨f, fs, hf⟩ : ∃ f fs, m.fs = f :: fs := by
+      cases h : m.fs with
+      | nil => exact absurd h hne
+      | cons f fs => exact ⟨f, fs, rfl⟩
+    have hkn : k ≠ .none := by intro h; subst h; cases hkk
+    have hstep : (step Fix.all m (.tailcall k child)).sh = pushHook m.sh f.slot child (decide (k = .plt)) := by
+      simp [step, hi.nh, hf, hookEntry_hooked_noexc _ hx hkn]
+    refine ⟨c, ⟨by rw [hstep]; exact stream_pushHook hs.ok _ _ _, ?_, ?_⟩, SeenLe.refl c⟩
+    · rw [hstep, pushHook_rs]; exact NoJump.cons (mkEnt_nojump hk) hs.nj
+    · rw [hstep]; exact hs.jb_mono (SeenLe.refl c) (by simp)
+  | setjmp j child slot orig =>
+    obtain ⟨hlt, hor, hx⟩ := hw
+    obtain ⟨a1, a2, a3⟩ := inv_push_plt (child := child) hi hlt hor hx
+    let s1 := pushHook (progStore m.sh slot orig) slot child true
+    let sh1 := setupJmpbuf Fix.all s1 j
+    have hpe : plthookEntry Fix.all (progStore m.sh slot orig) slot child .setjmp j = sh1 :=
+      plthookEntry_setjmp (s := progStore m.sh slot orig) hx slot child j
+    have hpc : sh1.mem slot = PTRAMP := a3 _ _ (expFrames_cons_one slot orig child true m.fs)
+    have hc1 : sh1.rs.map Ent.c = ⟨slot, orig, child, true, false, false⟩ :: expFrames m.fs := by
+      show s1.rs.map Ent.c = _
+      rw [a1, expFrames_cons_one]
+    have hvf1 : sh1.vf = none := by simpa [sh1, s1, setupJmpbuf] using hi.vf
+    have hret : retLoop (sh1.rs.length + 1) sh1 (sh1.mem slot) = ((exitTop sh1).1, orig) := by
+      rw [hpc, retLoop_succ_ptramp, plthookExit_eq_exitTop hc1 rfl rfl rfl hvf1, (exitTop_spec hc1).1]
+      exact retLoop_stop hor _ _
+    have hstep : (step Fix.all m (.setjmp j child slot orig)).sh = (exitTop sh1).1 := by
+      have e1 : (step Fix.all m (.setjmp j child slot orig)).sh =
+          (retLoop ((plthookEntry Fix.all (progStore m.sh slot orig) slot child .setjmp j).rs.length + 1)
+            (plthookEntry Fix.all (progStore m.sh slot orig) slot child .setjmp j)
+            ((plthookEntry Fix.all (progStore m.sh slot orig) slot child .setjmp j).mem slot)).1 := by
+        simp only [step, hi.nh, Bool.false_eq_true, ↓reduceIte]
+        rfl
+      rw [e1, hpe, hret]
+    have h0 : SOk (progStore m.sh slot orig) c := hs.ok.of_eq rfl rfl rfl rfl
+    have hs1 : SOk sh1 c := (stream_pushHook h0 slot child true).of_eq rfl rfl rfl rfl
+    have hrs1 : sh1.rs = mkEnt slot ((progStore m.sh slot orig).mem slot) child true (progStore m.sh slot orig).recIdx ::
+        m.sh.rs := by simp [sh1, s1, setupJmpbuf]
+    have hkk : symKind child = .setjmp := hk
+    have hnj1 : NoJump sh1.rs := by
+      rw [hrs1]
+      exact NoJump.cons (show symKind child ≠ .longjmp ∧ symKind child ≠ .exec by rw [hkk]; decide) hs.nj
+    obtain ⟨c', b1, b2, _, b4, b5⟩ := stream_exitTop hs1 hnj1 hrs1
+    have hseen : c'.seen m.sh.rs.length = true := by
+      rcases b5 hkk with h | h
+      · simpa [mkEnt, hs.ok.idx] using h
+      · simp [mkEnt] at h
+    refine ⟨c', ⟨by rw [hstep]; exact b1, by rw [hstep]; exact b4, ?_⟩, b2⟩
+    rw [hstep]
+    have hjbs : (exitTop sh1).1.jbs = jbSet m.sh.jbs j (s1.rs, s1.recIdx) := by
+      rw [(exitTop_spec hc1).2.2.2.2.2.1]
+      simp [sh1, setupJmpbuf, s1]
+    intro j' srs sidx hl
+    rw [hjbs] at hl
+    by_cases hjj : j' = j
+    · subst hjj
+      rw [jbSet_lookup_same] at hl
+      cases hl
+      exact ⟨mkEnt slot ((progStore m.sh slot orig).mem slot) child true (progStore m.sh slot orig).recIdx, m.sh.rs,
+        by show s1.rs = _; simp [s1], hseen, hs.nj⟩
+    · rw [jbSet_lookup_other _ _ hjj] at hl
+      obtain ⟨e, r, h1, h2, h3⟩ := hs.jb j' srs sidx hl
+      exact ⟨e, r, h1, b2 _ h2, h3⟩
+  | longjmp j child slot orig =>
+    obtain ⟨hlt, hor, hx, jb, hjb, hsuf⟩ := hw
+    obtain ⟨a1, a2, _⟩ := inv_push_plt (child := child) hi hlt hor hx
+    obtain ⟨srs, sidx, hlk, hsc, hpc, hso, hsl⟩ := hi.jb j jb hjb
+    obtain ⟨e0, r0, hsr, hseen0, hnj0⟩ := hs.jb j srs sidx hlk
+    obtain ⟨hsidx, hsdep⟩ := ht.jbs j srs sidx hlk
+    let s1 := pushHook (progStore m.sh slot orig) slot child true
+    let sh1 : Sh := { s1.record false with
+          rs := setTop (s1.record false).rs fun e => { e with c := { e.c with ljmp := true }, jb := j } }
+    have hpe : plthookEntry Fix.all (progStore m.sh slot orig) slot child .longjmp j = sh1 :=
+      plthookEntry_longjmp (s := progStore m.sh slot orig) hx slot child j
+    have hrc : (s1.record false).rs.map Ent.c = ⟨slot, orig, child, true, false, false⟩ :: expFrames m.fs := by
+      rw [record_c, ← expFrames_cons_one]; exact a1
+    obtain ⟨e, r, hr, he, _⟩ := List.map_eq_cons_iff.mp hrc
+    have hrs1 : sh1.rs = { e with c := { e.c with ljmp := true }, jb := j } :: r := by
+      simp only [sh1, hr, setTop]
+    have hjbs : sh1.jbs = m.sh.jbs := by simp [sh1, s1]
+    let sR : Sh := { sh1 with rs := markWritten srs, recIdx := sidx }
+    have hexit : plthookExit sh1 = exitTop sR :=
+      plthookExit_ljmp (x := setjmpCtl jb) hrs1 rfl (by rw [hjbs]; exact hlk) hsc rfl rfl rfl
+        (by simpa [sh1, s1] using hi.vf)
+    have hsRc : sR.rs.map Ent.c = setjmpCtl jb :: expFrames jb.frames := by
+      show (markWritten srs).map Ent.c = _; rw [markWritten_c]; exact hsc
+    have hstep : (step Fix.all m (.longjmp j child slot orig)).sh = (exitTop sR).1 := by
+      have e1 : (step Fix.all m (.longjmp j child slot orig)).sh =
+          (retLoop (ljFuel (plthookEntry Fix.all (progStore m.sh slot orig) slot child .longjmp j) j)
+            (plthookEntry Fix.all (progStore m.sh slot orig) slot child .longjmp j) jb.pc).1 := by
+        simp only [step, hi.nh, Bool.false_eq_true, ↓reduceIte, hjb]
+        rfl
+      rw [e1, hpe, hpc]
+      rw [show ljFuel sh1 j = (sh1.rs.length + (sh1.jbs.lookup j).elim 0 (fun x => x.1.length) + 1) + 1 from rfl,
+        retLoop_succ_ptramp, hexit, (exitTop_spec hsRc).1]
+      rw [retLoop_stop (v := (setjmpCtl jb).ip) hso]
+    -- the stream: flush up to and including the longjmp ENTRY, then setjmp's EXIT
+    have h0 : SOk (progStore m.sh slot orig) c := hs.ok.of_eq rfl rfl rfl rfl
+    have hp : SOk s1 c := stream_pushHook h0 slot child true
+    have hrs0 : s1.rs = mkEnt slot ((progStore m.sh slot orig).mem slot) child true (progStore m.sh slot orig).recIdx ::
+        m.sh.rs := by simp [s1]
+    obtain ⟨c1, f1, f2, f3, f4, _⟩ := stream_flush hp hrs0 rfl hs.nj
+    obtain ⟨p1, p2, p3, p4, _⟩ := cnext_entry_props c1
+      (mkEnt slot ((progStore m.sh slot orig).mem slot) child true (progStore m.sh slot orig).recIdx)
+    have hkk : symKind child = .longjmp := hk
+    -- lengths
+    have hlen : m.sh.rs.length = logicalDepth m.fs := by
+      obtain ⟨dead, hc, hd0⟩ := hi.ctl
+      have hd : dead = [] := hd0 hx
+      subst hd
+      have := congrArg List.length hc
+      simpa [expFrames_length] using this
+    have hslen : r0.length = logicalDepth jb.frames := by
+      have := congrArg List.length hsc
+      rw [hsr] at this
+      simpa [expFrames_length] using this
+    have hle : r0.length ≤ m.sh.rs.length := by rw [hlen, hslen]; exact logicalDepth_suffix hsuf
+    -- the exit of the saved setjmp entry
+    let c2 := cnext c1 (toRRec (entryRec 0 (mkEnt slot ((progStore m.sh slot orig).mem slot) child true
+      (progStore m.sh slot orig).recIdx)))
+    let e0w : Ent := { e0 with written := true }
+    have hmw : markWritten srs = e0w :: markWritten r0 := by simp [markWritten, hsr, e0w]
+    have hd0 : e0w.depth = r0.length := by
+      have := hsdep
+      rw [hsr] at this
+      simp only [List.map_cons, List.length_cons, descFrom, List.cons.injEq] at this
+      exact this.1
+    have hk2 : cok c2 (toRRec (exitRec 0 e0w)) = true := by
+      have haf : c2.afterLj = true := by rw [show c2.afterLj = _ from p2]; simp [mkEnt, hkk]
+      have hcur : c2.cur = m.sh.rs.length + 1 := by
+        rw [show c2.cur = _ from p3]
+        have : symKind child ≠ .exec := by rw [hkk]; decide
+        simp [mkEnt, this, hs.ok.idx]
+      have hsn : c2.seen r0.length = true := p4 _ (f4 _ hseen0)
+      simp only [cok, toRRec, exitRec, haf, ↓reduceIte, show c2.started = true from p1, hcur, hd0, hsn,
+        Bool.and_true, decide_eq_true_eq]
+      simp
+      omega
+    obtain ⟨q1, q2, q3, q4⟩ := cnext_exit_props c2 e0w
+    have htid : sR.tid = 0 := by simp [Sh.tid, sR, sh1, s1, hs.ok.child]
+    obtain ⟨hout, hrsF, hrecF, hchF⟩ := exitTop_written_top (s := sR) (e := e0w) (r := markWritten r0) hmw rfl htid
+    have hallF : AllW (markWritten r0) := by
+      intro x hx
+      simp only [markWritten, List.mem_map] at hx
+      obtain ⟨y, _, rfl⟩ := hx
+      rfl
+    have hdepF : (markWritten r0).map Ent.depth = descFrom (markWritten r0).length := by
+      rw [markWritten_depth]
+      have := hsdep
+      rw [hsr] at this
+      simp only [List.map_cons, List.length_cons, descFrom, List.cons.injEq] at this
+      simp [markWritten, this.2]
+    refine ⟨cnext c2 (toRRec (exitRec 0 e0w)), ⟨⟨?_, ?_, ?_, ?_⟩, ?_, ?_⟩, ?_⟩
+    · rw [hstep, hchF]; simp [sR, sh1, s1, hs.ok.child]
+    · rw [hstep, hout, taskStream_append_tid0 _ _ (by intro x hx; simp at hx; rw [hx]; rfl)]
+      rw [crun_append]
+      rw [show sR.out = (s1.record false).out from rfl, f1]
+      show crun c2 [toRRec (exitRec 0 e0w)] = some (cnext c2 (toRRec (exitRec 0 e0w)))
+      simp only [crun, cstep, hk2, ↓reduceIte]
+    · rw [hstep, hrsF]
+      exact Sync_allW q2 hallF (by rw [q3, hd0]; simp [markWritten]) q1 hdepF
+    · rw [hstep, hrsF]
+      rw [hrecF, show sR.recIdx = sidx from rfl, hsidx, hsr]; simp [markWritten]
+    · rw [hstep, hrsF]
+      exact NoJump.congr hnj0 (markWritten_c r0).symm
+    · rw [hstep]
+      have hj2 : (exitTop sR).1.jbs = m.sh.jbs := by
+        rw [(exitTop_spec hsRc).2.2.2.2.2.1]; simp [sR, sh1, s1]
+      intro j' srs' sidx' hl
+      rw [hj2] at hl
+      obtain ⟨e', r', h1, h2, h3⟩ := hs.jb j' srs' sidx' hl
+      exact ⟨e', r', h1, by rw [q4]; exact p4 _ (f4 _ h2), h3⟩
+    · intro d hd; rw [q4]; exact p4 _ (f4 _ hd)
+  | throw =>
+    have hstep : (step Fix.all m .throw).sh = cxaThrow m.sh := by simp [step, hi.nh]
+    exact ⟨c, ⟨by rw [hstep]; exact hs.ok.of_eq rfl rfl rfl rfl, by rw [hstep]; exact hs.nj, by rw [hstep]; exact hs.jb⟩,
+      SeenLe.refl c⟩
+  | unwind =>
+    have hstep : (step Fix.all m .unwind).sh = m.sh := by simp [step, hi.nh]
+    exact ⟨c, ⟨by rw [hstep]; exact hs.ok, by rw [hstep]; exact hs.nj, by rw [hstep]; exact hs.jb⟩, SeenLe.refl c⟩
+  | resume =>
+    have hstep : (step Fix.all m .resume).sh = cxaThrow m.sh := by simp [step, hi.nh]
+    exact ⟨c, ⟨by rw [hstep]; exact hs.ok.of_eq rfl rfl rfl rfl, by rw [hstep]; exact hs.nj, by rw [hstep]; exact hs.jb⟩,
+      SeenLe.refl c⟩
+  | catch_ fa =>
+    have hstep : (step Fix.all m (.catch_ fa)).sh = beginCatch Fix.all m.sh fa := by simp [step, hi.nh]
+    rcases Bool.eq_false_or_eq_true m.sh.inExc with hx | hx
+    · have hb : beginCatch Fix.all m.sh fa = excPre Fix.all m.sh fa := by simp [beginCatch, hx, excPre]
+      obtain ⟨c', a1, a2, a3⟩ := stream_excPre Fix.all hs.ok hs.nj fa
+      refine ⟨c', ⟨by rw [hstep, hb]; exact a1, by rw [hstep, hb]; exact a3, ?_⟩, a2⟩
+      rw [hstep, hb]; exact hs.jb_mono a2 (by simp [excPre, rehookException])
+    · have hb : beginCatch Fix.all m.sh fa = m.sh := by simp [beginCatch, hx]
+      exact ⟨c, ⟨by rw [hstep, hb]; exact hs.ok, by rw [hstep, hb]; exact hs.nj, by rw [hstep, hb]; exact hs.jb⟩,
+        SeenLe.refl c⟩
+  | pthreadExit child slot orig => exact absurd hk id
+  | exit child slot orig => exact absurd hk id
+  | vforkExec a b c d e => exact absurd hk id
+  | mtdDtor =>
+    have hstep : (step Fix.all m .mtdDtor).sh = mtdDtor m.sh := by simp [step, hi.nh]
+    obtain ⟨hx, hch⟩ := hw
+    obtain ⟨dead, hc, hd0⟩ := hi.ctl
+    have hd : dead = [] := hd0 hx
+    subst hd
+    have hexp : expFrames m.fs = [] := by
+      have : ∀ fs : List Frame, (∀ f ∈ fs, f.chain = []) → expFrames fs = [] := by
+        intro fs
+        induction fs with
+        | nil => intro _; rfl
+        | cons f fs ih =>
+          intro h
+          simp [expFrames, h f (by simp), expChain, ih (fun g hg => h g (by simp [hg]))]
+      exact this m.fs hch
+    have hrs : m.sh.rs = [] := by simpa [hexp] using hc
+    refine ⟨c, ⟨by rw [hstep]; exact hs.ok.of_eq rfl rfl (by simp [mtdDtor, hrs]) rfl, ?_, ?_⟩, SeenLe.refl c⟩
+    · rw [hstep]; intro x hx'; simp [mtdDtor] at hx'
+    · rw [hstep]; exact hs.jb
+  | fork inChild child slot orig =>
+    obtain ⟨hic, hok⟩ := hk
+    subst hic
+    obtain ⟨hlt, hor, hx⟩ := hw
+    obtain ⟨dead, hc, hd0⟩ := hi.ctl
+    have hd : dead = [] := hd0 hx
+    subst hd
+    simp only [List.nil_append] at hc
+    let s1 := pushHook (progStore m.sh slot orig) slot child true
+    have hpe : plthookEntry Fix.all (progStore m.sh slot orig) slot child .flush 0 = s1.record false :=
+      plthookEntry_flush (s := progStore m.sh slot orig) hx slot child
+    have hstep : (step Fix.all m (.fork false child slot orig)).sh =
+        (retLoop ((s1.record false).rs.length + 1) (s1.record false) ((s1.record false).mem slot)).1 := by
+      have e1 : (step Fix.all m (.fork false child slot orig)).sh =
+          (retLoop ((forkSide false (plthookEntry Fix.all (progStore m.sh slot orig) slot child .flush 0)).rs.length + 1)
+            (forkSide false (plthookEntry Fix.all (progStore m.sh slot orig) slot child .flush 0))
+            ((forkSide false (plthookEntry Fix.all (progStore m.sh slot orig) slot child .flush 0)).mem slot)).1 := by
+        simp only [step, hi.nh, Bool.false_eq_true, ↓reduceIte]
+        rfl
+      rw [e1, hpe]; rfl
+    have h0 : SOk (progStore m.sh slot orig) c := hs.ok.of_eq rfl rfl rfl rfl
+    have hp : SOk s1 c := stream_pushHook h0 slot child true
+    have hrs0 : s1.rs = mkEnt slot ((progStore m.sh slot orig).mem slot) child true (progStore m.sh slot orig).recIdx ::
+        m.sh.rs := by simp [s1]
+    obtain ⟨c1, f1, f2, f3, f4, f5⟩ := stream_flush hp hrs0 rfl hs.nj
+    obtain ⟨p1, p2, p3, p4, _⟩ := cnext_entry_props c1
+      (mkEnt slot ((progStore m.sh slot orig).mem slot) child true (progStore m.sh slot orig).recIdx)
+    have hrl : (s1.record false).rs.length = m.sh.rs.length + 1 := by simp [s1]
+    have hsok : SOk (s1.record false) (cnext c1 (toRRec (entryRec 0
+        (mkEnt slot ((progStore m.sh slot orig).mem slot) child true (progStore m.sh slot orig).recIdx)))) := by
+      refine ⟨by simp [s1, pushHook, hs.ok.child], f1, ?_, by simp [s1, hs.ok.idx]⟩
+      apply Sync_allW _ f5 _ p1
+      · have := record_depth s1 false
+        rw [this, hrl]
+        have := hp.sync.dep
+        rw [this]; simp [s1]
+      · rw [p2]; simp [mkEnt, hok.1]
+      · rw [p3, hrl]; simp [mkEnt, hok.2, hs.ok.idx]
+    have hnj1 : NoJump (s1.record false).rs :=
+      NoJump.congr (l := s1.rs) (by rw [hrs0]; exact NoJump.cons (mkEnt_nojump hok) hs.nj) (record_c s1 false).symm
+    have hnf1 : NoFlags (s1.record false).rs := by
+      apply NoFlags.congr (l := s1.rs) _ (record_c s1 false).symm
+      rw [hrs0]
+      intro x hx'
+      rcases List.mem_cons.mp hx' with rfl | hx''
+      · exact ⟨rfl, rfl⟩
+      · exact NoFlags_of_exp hc x hx''
+    obtain ⟨c', b1, b2, b3, _, _, b6⟩ := stream_retLoop ((s1.record false).rs.length + 1) (s1.record false)
+      ((s1.record false).mem slot) _ hsok hnj1 hnf1 (by simpa [s1] using hi.vf)
+    have hle : SeenLe c c' := fun d hd => b2 d (p4 d (f4 d hd))
+    refine ⟨c', ⟨by rw [hstep]; exact b1, by rw [hstep]; exact b3, ?_⟩, hle⟩
+    rw [hstep]; exact hs.jb_mono hle (by rw [b6]; simp [s1])
+  | exec child slot orig =>
+    obtain ⟨hlt, hor, hx⟩ := hw
+    let s1 := pushHook (progStore m.sh slot orig) slot child true
+    have hpe : plthookEntry Fix.all (progStore m.sh slot orig) slot child .flush 0 = s1.record false :=
+      plthookEntry_flush (s := progStore m.sh slot orig) hx slot child
+    have hstep : (step Fix.all m (.exec child slot orig)).sh =
+        { Sh.init with out := (s1.record false).out, pid := (s1.record false).pid, child := (s1.record false).child } := by
+      have e1 : (step Fix.all m (.exec child slot orig)).sh =
+          { Sh.init with
+            out := (plthookEntry Fix.all (progStore m.sh slot orig) slot child .flush 0).out,
+            pid := (plthookEntry Fix.all (progStore m.sh slot orig) slot child .flush 0).pid,
+            child := (plthookEntry Fix.all (progStore m.sh slot orig) slot child .flush 0).child } := by
+        simp only [step, hi.nh, Bool.false_eq_true, ↓reduceIte]
+        rfl
+      rw [e1, hpe]
+    have h0 : SOk (progStore m.sh slot orig) c := hs.ok.of_eq rfl rfl rfl rfl
+    have hp : SOk s1 c := stream_pushHook h0 slot child true
+    have hrs0 : s1.rs = mkEnt slot ((progStore m.sh slot orig).mem slot) child true (progStore m.sh slot orig).recIdx ::
+        m.sh.rs := by simp [s1]
+    obtain ⟨c1, f1, f2, f3, f4, _⟩ := stream_flush hp hrs0 rfl hs.nj
+    obtain ⟨p1, p2, p3, p4, _⟩ := cnext_entry_props c1
+      (mkEnt slot ((progStore m.sh slot orig).mem slot) child true (progStore m.sh slot orig).recIdx)
+    have hkk : symKind child = .exec := hk
+    refine ⟨_, ⟨⟨?_, ?_, ?_, ?_⟩, ?_, ?_⟩, fun d hd => p4 d (f4 d hd)⟩
+    · rw [hstep]; simp [s1, pushHook, hs.ok.child]
+    · rw [hstep]; exact f1
+    · rw [hstep]
+      refine ⟨?_, ?_, fun _ => rfl, trivial, rfl⟩
+      · rw [p2]; simp [mkEnt, hkk]
+      · rw [p3]; simp [mkEnt, hkk, wc, Sh.init]
+    · rw [hstep]; rfl
+    · rw [hstep]; intro x hx'; simp [Sh.init] at hx'
+    · rw [hstep]; intro j' srs sidx hl; simp [Sh.init] at hl
+
+end Uft.NonLocal
+
+namespace Uft.NonLocal
+
+/-! ### the statements for the repaired libmcount (`Fix.all`); Props/C11.lean restates them for `Fix.current` -/
+
+/-- Main invariant: whatever the program does next — call (hooked by mcount/fentry, through
+    the PLT, or not at all; also from a landing pad), return, tail call, setjmp, longjmp to any
+    live jmp_buf, throw, one step of unwinding, _Unwind_Resume, catch, pthread_exit, exit, the
+    thread destructor — a machine that is in step stays in step.  (A signal handler is a `call`
+    at an arbitrary point, see `rep_signal_transparent`.)  `vforkExec` is in the executable model
+    and in the correspondence harness only. -/
+theorem rep_instep_invariant {m : M} {op : Op} (hi : InStep m) (hw : WellFormedOp m op)
+    (hv : ∀ a b c d e, op ≠ .vforkExec a b c d e) : InStep (step Fix.all m op) := by
+  rcases hi with hh | hi
+  · left; rw [step_halted _ hh]; exact hh
+  · cases op with
+    | call k child slot orig fpw => right; exact inv_call hi hw
+    | ret =>
+      right
+      obtain ⟨f, fs, hf⟩ : ∃ f fs, m.fs = f :: fs := by
+        cases h : m.fs with
+        | nil => exact absurd h hw.1
+        | cons f fs => exact ⟨f, fs, rfl⟩
+      exact (ret_spec hi hw hf).1
+    | tailcall k child => right; exact inv_tailcall hi hw
+    | setjmp j child slot orig => right; exact (inv_setjmp hi hw).1
+    | longjmp j child slot orig =>
+      right
+      obtain ⟨jb, _, h, _⟩ := inv_longjmp hi hw
+      exact h
+    | throw => right; exact inv_throw hi hw
+    | unwind => right; exact inv_unwind hi hw
+    | resume => right; exact inv_resume hi hw
+    | catch_ fa => right; exact inv_catch hi hw
+    | pthreadExit child slot orig => right; exact inv_pthreadExit hi hw
+    | exit child slot orig => exact instep_exit child slot orig
+    | vforkExec a b c d e => right; exact (inv_vforkExec hi hw).1
+    | mtdDtor => right; exact inv_mtdDtor hi hw
+    | fork ic child slot orig => right; exact (inv_fork hi hw).1
+    | exec child slot orig => right; exact inv_exec hi child slot orig
+
+/-- vfork + exec: the parent comes back from vfork to its caller although the child used the shared
+    shadow stack in between (prepare_vfork / setup_vfork / restore_vfork) -/
+theorem rep_vfork_returns {m : M} (hi : Inv m) {child slot orig echild eorig : Nat}
+    (hw : WellFormedOp m (.vforkExec child slot orig echild eorig)) :
+    (step Fix.all m (.vforkExec child slot orig echild eorig)).last = orig := (inv_vforkExec hi hw).2
+
+/-- non-terminal steps keep the machine running and in step -/
+theorem inv_step_nonterminal {m : M} {op : Op} (hi : Inv m) (hw : WellFormedOp m op) (hnt : op.noDepthClaim = false) :
+    Inv (step Fix.all m op) := by
+  cases op with
+  | call k child slot orig fpw => exact inv_call hi hw
+  | ret =>
+    obtain ⟨f, fs, hf⟩ : ∃ f fs, m.fs = f :: fs := by
+      cases h : m.fs with
+      | nil => exact absurd h hw.1
+      | cons f fs => exact ⟨f, fs, rfl⟩
+    exact (ret_spec hi hw hf).1
+  | tailcall k child => exact inv_tailcall hi hw
+  | setjmp j child slot orig => exact (inv_setjmp hi hw).1
+  | longjmp j child slot orig =>
+    obtain ⟨jb, _, h, _⟩ := inv_longjmp hi hw
+    exact h
+  | throw => exact inv_throw hi hw
+  | unwind => exact inv_unwind hi hw
+  | resume => exact inv_resume hi hw
+  | catch_ fa => exact inv_catch hi hw
+  | pthreadExit child slot orig => simp [Op.noDepthClaim] at hnt
+  | exit child slot orig => simp [Op.noDepthClaim] at hnt
+  | vforkExec a b c d e => simp [Op.noDepthClaim] at hnt
+  | mtdDtor => exact inv_mtdDtor hi hw
+  | fork ic child slot orig => exact (inv_fork hi hw).1
+  | exec child slot orig => exact inv_exec hi child slot orig
+
+/-- the invariant is not vacuous: the initial machine is in step and so is a machine inside
+    two nested hooked calls with a setjmp taken -/
+example : Inv M.init :=
+  ⟨rfl, rfl, rfl, ⟨[], rfl, fun _ => rfl⟩, List.Pairwise.nil, (fun _ h => by cases h), (fun _ h => by cases h),
+    (fun _ => TopOk_of_nil (fs := []) rfl), (fun _ _ h => by cases h), (fun _ _ h => by cases h)⟩
+
+/-- Under the invariant a return goes to the real caller: the program behaves as untraced.
+    (Through a tail-call chain this takes one exit hook per chain element.) -/
+theorem rep_every_return_reaches_caller {m : M} (hi : Inv m) (hw : WellFormedOp m .ret) {f : Frame} {fs : List Frame}
+    (hf : m.fs = f :: fs) :
+    (step Fix.all m .ret).last = f.orig ∧ (step Fix.all m .ret).fs = fs := by
+  refine ⟨(ret_spec hi hw hf).2, ?_⟩
+  rw [step_ret_eq _ hi.nh hf]
+
+/-- longjmp lands behind the setjmp call of the target jmp_buf, with exactly the frames of
+    that moment, and the shadow stack follows (by `c11_instep_invariant`) -/
+theorem rep_longjmp_reaches_setjmp {m : M} (hi : Inv m) {j child slot orig : Nat}
+    (hw : WellFormedOp m (.longjmp j child slot orig)) :
+    ∃ jb, m.rjb.lookup j = some jb ∧ (step Fix.all m (.longjmp j child slot orig)).last = jb.sorig ∧
+      (step Fix.all m (.longjmp j child slot orig)).fs = jb.frames := by
+  obtain ⟨jb, h1, _, h3, h4⟩ := inv_longjmp hi hw
+  exact ⟨jb, h1, h3, h4⟩
+
+/-- setjmp itself returns to its caller -/
+theorem rep_setjmp_returns {m : M} (hi : Inv m) {j child slot orig : Nat}
+    (hw : WellFormedOp m (.setjmp j child slot orig)) :
+    (step Fix.all m (.setjmp j child slot orig)).last = orig := (inv_setjmp hi hw).2
+
+/-- While an exception is in flight every live return slot holds the real return address:
+    the C++ unwinder, which walks the stack through these slots, sees the untraced stack. -/
+theorem rep_unwinder_sees_real_addresses {m : M} (hi : Inv m) (hw : WellFormedOp m .throw) :
+    ∀ f ∈ (step Fix.all m .throw).fs, (step Fix.all m .throw).sh.mem f.slot = f.orig :=
+  (inv_throw hi hw).exc (by simp [step, hi.nh, cxaThrow])
+
+/-- The depth bookkeeping survives every non-terminal step: `record_idx` is the number of
+    shadow entries and every entry's `depth` is the number of entries below it (also in every
+    jmp_buf copy). -/
+theorem rep_trace_depth_invariant {m : M} {op : Op} (hi : Inv m) (ht : TraceInv m.sh) (hw : WellFormedOp m op)
+    (hnt : op.noDepthClaim = false) : TraceInv (step Fix.all m op).sh :=
+  trace_step hi ht hw hnt
+
+/-- After a longjmp or a catch (or any other non-terminal step that leaves no exception in
+    flight) the depth counter is the true nesting depth — the number of hooked logical calls that
+    are open on the real stack — and the depths stored in the shadow entries are
+    n-1, …, 0; so the records of every later call (entryRec/exitRec copy `depth`) carry the true depth. -/
+theorem rep_trace_depth_after_jump {m : M} {op : Op} (hi : Inv m) (ht : TraceInv m.sh) (hw : WellFormedOp m op)
+    (hnt : op.noDepthClaim = false) (hx : (step Fix.all m op).sh.inExc = false) :
+    (step Fix.all m op).sh.recIdx = logicalDepth (step Fix.all m op).fs ∧
+    (step Fix.all m op).sh.rs.map Ent.depth = descFrom (logicalDepth (step Fix.all m op).fs) := by
+  have ht' := trace_step hi ht hw hnt
+  have hi' := inv_step_nonterminal hi hw hnt
+  obtain ⟨dead, hc, hd0⟩ := hi'.ctl
+  have hd : dead = [] := hd0 hx
+  subst hd
+  have hl : (step Fix.all m op).sh.rs.length = logicalDepth (step Fix.all m op).fs := by
+    have := congrArg List.length hc
+    simpa [expFrames_length] using this
+  exact ⟨by rw [ht'.idx, hl], by rw [ht'.depths, hl]⟩
+
+/-- the entry pushed by a hooked call carries the true nesting depth -/
+theorem rep_entry_depth_true {m : M} {k : Kind} {child slot orig fpw : Nat} (hi : Inv m) (ht : TraceInv m.sh)
+    (hw : WellFormedOp m (.call k child slot orig fpw)) (hk : k ≠ .none) :
+    ((step Fix.all m (.call k child slot orig fpw)).sh.rs.head?).map Ent.depth = some (logicalDepth m.fs) := by
+  have hx : (step Fix.all m (.call k child slot orig fpw)).sh.inExc = false := by
+    have hstep : (step Fix.all m (.call k child slot orig fpw)).sh =
+        hookEntry Fix.all (progWrite m.sh slot orig fpw) k slot child := by
+      simp [step, hi.nh, progWrite]
+    rw [hstep]
+    rcases Bool.eq_false_or_eq_true (progWrite m.sh slot orig fpw).inExc with he | he
+    · cases k with
+      | none => exact absurd rfl hk
+      | mcount => simp only [hookEntry]; rw [mcountEntry_exc _ he]; simp [excPre]
+      | plt => simp only [hookEntry]; rw [plthookEntry_plain_exc he]; simp [excPre]
+    · cases k with
+      | none => exact absurd rfl hk
+      | mcount => simp only [hookEntry]; rw [mcountEntry_noexc _ he]; simpa using he
+      | plt => simp only [hookEntry]; rw [plthookEntry_plain_noexc _ he]; simpa using he
+  obtain ⟨_, h2⟩ := rep_trace_depth_after_jump hi ht hw rfl hx
+  have hfs : (step Fix.all m (.call k child slot orig fpw)).fs = ⟨slot, orig, chainOf k child⟩ :: m.fs := by
+    simp [step, hi.nh]
+  rw [hfs] at h2
+  have hld : logicalDepth (⟨slot, orig, chainOf k child⟩ :: m.fs) = logicalDepth m.fs + 1 := by
+    rw [chainOf_hooked hk]; simp [logicalDepth]; omega
+  rw [hld] at h2
+  cases hr : (step Fix.all m (.call k child slot orig fpw)).sh.rs with
+  | nil => rw [hr] at h2; simp [descFrom] at h2
+  | cons e r =>
+    rw [hr] at h2
+    simp only [List.map_cons, descFrom, List.cons.injEq] at h2
+    simp [h2.1]
+
+/-- Replay (repaired fix-up): on every record stream that is locally coherent — which is how the
+    shadow stack emits it: calls nest, returns close the innermost call, and the record after a
+    longjmp ENTRY is the second EXIT of a setjmp whose ENTRY was seen at that depth — every record
+    is displayed at its record depth, also after a longjmp to a jmp_buf that is not the latest. -/
+theorem rep_replay_depth_coherent (l : List RRec) (h : coherent CSt.init l = true) :
+    rrun true RSt.init l = l.map (·.depth) :=
+  rrun_coherent l RSt.init CSt.init ⟨rfl, (fun h => by cases h), (fun _ h => by cases h), rfl⟩ h
+
+/-! ### signal handlers: a balanced history at an arbitrary point -/
+
+/-- well-nested calls and returns: what a (traced or untraced) signal handler and everything it
+    calls do between the arrival of the signal and sigreturn -/
+inductive Balanced : List Op → Prop
+  | nil : Balanced []
+  | wrap {k : Kind} {child slot orig fpw : Nat} {h1 h2 : List Op} :
+      Balanced h1 → Balanced h2 → Balanced (.call k child slot orig fpw :: h1 ++ .ret :: h2)
+
+/-- every op of the history is well formed in the state it is executed in -/
+def WFRun (m : M) : List Op → Prop
+  | [] => True
+  | op :: r => WellFormedOp m op ∧ WFRun (step Fix.all m op) r
+
+theorem run_append (fx : Fix) (m : M) (a b : List Op) : run fx m (a ++ b) = run fx (run fx m a) b := by
+  simp [run, List.foldl_append]
+
+theorem WFRun_append {m : M} {a b : List Op} (h : WFRun m (a ++ b)) : WFRun m a ∧ WFRun (run Fix.all m a) b := by
+  induction a generalizing m with
+  | nil => exact ⟨trivial, h⟩
+  | cons op r ih =>
+    obtain ⟨h1, h2⟩ := h
+    obtain ⟨h3, h4⟩ := ih h2
+    exact ⟨⟨h1, h3⟩, h4⟩
+
+/-- everything that later steps can depend on is the same -/
+structure SameState (m m' : M) : Prop where
+  fs : m'.fs = m.fs
+  ctl : m'.sh.rs.map Ent.c = m.sh.rs.map Ent.c
+  mem : ∀ f ∈ m.fs, m'.sh.mem f.slot = m.sh.mem f.slot
+  recIdx : m'.sh.recIdx = m.sh.recIdx
+  inExc : m'.sh.inExc = m.sh.inExc
+  jbs : m'.sh.jbs = m.sh.jbs
+  rjb : m'.rjb = m.rjb
+
+theorem SameState.trans {a b c : M} (h1 : SameState a b) (h2 : SameState b c) : SameState a c :=
+  ⟨h2.fs.trans h1.fs, h2.ctl.trans h1.ctl,
+    fun f hf => (h2.mem f (by rw [h1.fs]; exact hf)).trans (h1.mem f hf),
+    h2.recIdx.trans h1.recIdx, h2.inExc.trans h1.inExc, h2.jbs.trans h1.jbs, h2.rjb.trans h1.rjb⟩
+
+/-- A balanced history inserted at any point (a signal handler interrupting traced code, itself
+    traced or not, calling whatever it likes as long as everything returns) leaves the machine in
+    step and the state unchanged: same frames, same shadow entries, same content of every live
+    return slot, same depth counter, same jmp_buf copies. -/
+theorem rep_signal_transparent {h : List Op} (hb : Balanced h) :
+    ∀ {m : M}, Inv m → m.sh.inExc = false → WFRun m h →
+      Inv (run Fix.all m h) ∧ SameState m (run Fix.all m h) := by
+  induction hb with
+  | nil => intro m hi _ _; exact ⟨hi, ⟨rfl, rfl, fun _ _ => rfl, rfl, rfl, rfl, rfl⟩⟩
+  | @wrap k child slot orig fpw h1 h2 _ _ ih1 ih2 =>
+    intro m hi hx hw
+    obtain ⟨hwc, hw'⟩ := hw
+    obtain ⟨hw1, hw''⟩ := WFRun_append hw'
+    obtain ⟨hwr, hw2⟩ := hw''
+    have hrun : run Fix.all m (.call k child slot orig fpw :: h1 ++ .ret :: h2) =
+        run Fix.all (step Fix.all (run Fix.all (step Fix.all m (.call k child slot orig fpw)) h1) .ret) h2 := by
+      show run Fix.all (step Fix.all m _) (h1 ++ .ret :: h2) = _
+      rw [run_append]; rfl
+    rw [hrun]
+    -- the call
+    have hi1 := inv_call hi hwc
+    obtain ⟨c1, c2, c3, c4, c5, c6⟩ := call_frame hi hx hwc
+    -- the nested history
+    obtain ⟨hi2, s12⟩ := ih1 hi1 c2 hw1
+    have hx2 : (run Fix.all (step Fix.all m (.call k child slot orig fpw)) h1).sh.inExc = false := by
+      rw [s12.inExc]; exact c2
+    have hf2 : (run Fix.all (step Fix.all m (.call k child slot orig fpw)) h1).fs =
+        ⟨slot, orig, chainOf k child⟩ :: m.fs := by rw [s12.fs]; exact c1
+    -- the return
+    obtain ⟨hi3, _⟩ := ret_spec hi2 hwr hf2
+    obtain ⟨r1, r2, r3, r4, r5⟩ := ret_frame hi2 hx2 hwr hf2
+    have hfs3 : (step Fix.all (run Fix.all (step Fix.all m (.call k child slot orig fpw)) h1) .ret).fs = m.fs := by
+      rw [step_ret_eq _ hi2.nh hf2]
+    have s03 : SameState m (step Fix.all (run Fix.all (step Fix.all m (.call k child slot orig fpw)) h1) .ret) := by
+      obtain ⟨d0, hc0, hd0⟩ := hi.ctl
+      obtain ⟨d3, hc3, hd3⟩ := hi3.ctl
+      have e0 : d0 = [] := hd0 hx
+      have e3 : d3 = [] := hd3 r1
+      subst e0; subst e3
+      refine ⟨hfs3, ?_, ?_, ?_, by rw [r1, hx], by rw [r2, s12.jbs, c3], by rw [r3, s12.rjb, c4]⟩
+      · rw [hc3, hc0, hfs3]
+      · intro g hg
+        have hgs : slot < g.slot := hwc.2.1 g hg
+        by_cases htop : ∃ p ps, expFrames m.fs = p :: ps ∧ g.slot = p.loc
+        · -- the top hooked frame: hooked before and after
+          obtain ⟨p, ps, hp, hgp⟩ := htop
+          rw [hgp, hi3.top r1 p ps (by rw [hfs3]; exact hp), hi.top hx p ps hp]
+        · have hne : ∀ p ps, expFrames m.fs = p :: ps → g.slot ≠ p.loc :=
+            fun p ps hp h => htop ⟨p, ps, hp, h⟩
+          rw [r5 g.slot hne, s12.mem g (by rw [c1]; simp [hg]), c6 g.slot (by omega) (by omega) hne]
+      · rw [r4, s12.recIdx, c5]; simp
+    -- the rest of the history
+    have hx3 : (step Fix.all (run Fix.all (step Fix.all m (.call k child slot orig fpw)) h1) .ret).sh.inExc = false := r1
+    obtain ⟨hi4, s34⟩ := ih2 hi3 hx3 hw2
+    exact ⟨hi4, s03.trans s34⟩
+
+/-- the theorem is not vacuous: a handler calling a traced and a PLT function on top of main -/
+example : Balanced [.call .mcount 5 20 3000 29, .call .plt 100 10 3001 0, .ret, .ret] :=
+  Balanced.wrap (h1 := [.call .plt 100 10 3001 0, .ret]) (h2 := [])
+    (Balanced.wrap (h1 := []) (h2 := []) Balanced.nil Balanced.nil) Balanced.nil
+
+
+end Uft.NonLocal
+
+namespace Uft.NonLocal
+
+/-! ### whole histories -/
+
+/-- a program history: every step is well formed in the state it is executed in and uses the fix-up
+    symbols only through their own ops -/
+def History (m : M) : List Op → Prop
+  | [] => True
+  | op :: r => WellFormedOp m op ∧ SymOk op ∧ History (step Fix.current m op) r
+
+theorem symOk_depthClaim {op : Op} (h : SymOk op) : op.noDepthClaim = false := by
+  cases op <;> simp_all [SymOk, Op.noDepthClaim]
+
+theorem streamInv_init : StreamInv M.init CSt.init :=
+  ⟨⟨rfl, rfl, ⟨rfl, rfl, fun _ => rfl, trivial, rfl⟩, rfl⟩, (fun _ h => by cases h), (fun _ _ _ h => by cases h)⟩
+
+theorem traceInv_init : TraceInv M.init.sh := ⟨rfl, rfl, fun _ _ _ h => by cases h⟩
+
+theorem inv_init : Inv M.init :=
+  ⟨rfl, rfl, rfl, ⟨[], rfl, fun _ => rfl⟩, List.Pairwise.nil, (fun _ h => by cases h), (fun _ h => by cases h),
+    (fun _ => TopOk_of_nil (fs := []) rfl), (fun _ _ h => by cases h), (fun _ _ h => by cases h)⟩
+
+/-- everything the theorems need, kept along a history -/
+theorem history_run : ∀ (ops : List Op) (m : M) (c : CSt), Inv m → TraceInv m.sh → StreamInv m c → History m ops →
+    ∃ c', Inv (run Fix.current m ops) ∧ TraceInv (run Fix.current m ops).sh ∧ StreamInv (run Fix.current m ops) c' ∧
+      SeenLe c c' := by
+  intro ops
+  induction ops with
+  | nil => intro m c hi ht hs _; exact ⟨c, hi, ht, hs, SeenLe.refl c⟩
+  | cons op r ih =>
+    intro m c hi ht hs hh
+    obtain ⟨hw, hk, hr⟩ := hh
+    have hi' : Inv (step Fix.current m op) := inv_step_nonterminal hi hw (symOk_depthClaim hk)
+    have ht' : TraceInv (step Fix.current m op).sh := trace_step hi ht hw (symOk_depthClaim hk)
+    obtain ⟨c1, hs', hle⟩ := stream_step hi ht hs hw hk
+    obtain ⟨c', a1, a2, a3, a4⟩ := ih (step Fix.current m op) c1 hi' ht' hs' hr
+    exact ⟨c', a1, a2, a3, hle.trans a4⟩
+
+def rfinal (fixed : Bool) : RSt → List RRec → RSt
+  | s, [] => s
+  | s, r :: rs => rfinal fixed (rstep fixed s r).1 rs
+
+theorem rfinal_coherent : ∀ (l : List RRec) (r : RSt) (c c' : CSt), RInv r c → crun c l = some c' →
+    RInv (rfinal true r l) c' := by
+  intro l
+  induction l with
+  | nil => intro r c c' h hc; simp [crun] at hc; rw [← hc]; exact h
+  | cons x xs ih =>
+    intro r c c' h hc
+    simp only [crun, cstep] at hc
+    by_cases hk : cok c x = true
+    · simp only [hk, ↓reduceIte] at hc
+      exact ih _ _ _ (rstep_coherent h hk).1 hc
+    · simp [hk] at hc
+
+theorem rfinal_asis : ∀ (l : List RRec) (r : RSt) (c c' : CSt), RInvA r c → crun c l = some c' →
+    latestOnly c l = true → RInvA (rfinal false r l) c' := by
+  intro l
+  induction l with
+  | nil => intro r c c' h hc _; simp [crun] at hc; rw [← hc]; exact h
+  | cons x xs ih =>
+    intro r c c' h hc hl
+    simp only [crun, cstep] at hc
+    simp only [latestOnly, Bool.and_eq_true] at hl
+    by_cases hk : cok c x = true
+    · simp only [hk, ↓reduceIte] at hc
+      exact ih _ _ _ (rstep_asis h hk hl.1).1 hc hl.2
+    · simp [hk] at hc
+
+theorem rinv_init : RInv RSt.init CSt.init := ⟨rfl, (fun h => by cases h), (fun _ h => by cases h), rfl⟩
+theorem rinvA_init : RInvA RSt.init CSt.init :=
+  ⟨rfl, (fun h => by cases h), (fun h => by cases h), (fun _ h => by cases h)⟩
+
+theorem wc_le_length (l : List Ent) : wc l ≤ l.length := by
+  induction l with
+  | nil => exact Nat.le_refl _
+  | cons e r ih => simp only [wc, List.length_cons]; split <;> omega
 
 end Uft.NonLocal
